@@ -110,6 +110,5 @@ def is_valid(number):
 
 def format(number):
     """Reformat the number to the standard presentation format."""
-    if len(number) == 9:
-        number = number[:3] + '-' + number[3:5] + '-' + number[5:]
-    return number
+    number = compact(number)
+    return number[:3] + '-' + number[3:5] + '-' + number[5:] if len(number) == 9 else number
